@@ -9,6 +9,7 @@ pub mod dynde;
 pub mod generate;
 pub mod jsontree;
 pub mod term;
+pub mod validate;
 
 use std::collections::HashMap;
 use std::io::{BufRead, Write};
